@@ -90,6 +90,16 @@ CLAIMED = {
             'Trusted: direct evaluation, box search, FM elimination, kernel checker. Exceptions/NOCONCL are "no verdict". '
             'simplex_strict, branch-and-bound and the simplex HOL wrappers are not driven.',
             'DESIGN.md §3 C16'),
+    'C20': ('exploration',
+            'bounded exhaustive enumeration of annotated while-programs x initial states on the real VC generator and evaluator, interpreter oracle',
+            'All programs over skip/assignment/sequence/conditional/annotated loop up to the tier shapes, with expressions, conditions, '
+            'invariants and pre/postconditions from grammars containing every bracketing-sensitive shape, and all initial states in '
+            '{-2..3}^2: loop-free wp agrees with execution pointwise; for loop programs valid VCs (z3 on an independent encoding) plus a '
+            'terminating run from a pre-state that misses the post is a violation; every displayed VC is re-parsed and must mean the '
+            'same as the computed HOL condition; imp.eval_Sem proofs are kernel-checked and the proved final state equals the interpreter\'s.',
+            'Trusted: own interpreter/evaluators, z3 for the universal hypothesis of loop VCs (unknown => undecided), kernel checker. '
+            'Two integer variables, grid -2..3, loop unrolling <=60.',
+            'DESIGN.md §3 C20'),
 }
 
 PENDING_REASON = 'check not built yet in this round (planned, see DESIGN.md §3/§7); not claimed until its machinery exists'
